@@ -1,7 +1,382 @@
-//! C05 — not built yet
-use crate::vcore::Tier;
+//! C05 — frames last 69888/70908 T with a 32-T INT pulse; no T-state is ever lost.
+//! (a) INT window: every T of the frame; (b) programs over many frames in lock step with
+//! RefSpectrum after every instruction, never placing the clock; (c) emulate_frames(FrameCount(n)).
 
-pub fn run(_tier: Tier, _seed: u64, _replay: Option<String>) -> i32 {
-    eprintln!("MACHINERY: check C05 is not built yet");
-    2
+use crate::refzx::*;
+use crate::rig::{self, Emu, Opts, RegsView};
+use crate::vcore::{par_for, par_for_with, Ctx, Tier};
+use refz80::{RefZ80, StepKind};
+use serde_json::json;
+use std::time::Duration;
+
+fn opts(m128: bool) -> Opts {
+    let mut o = Opts::machine(m128);
+    o.sound = false;
+    o
+}
+
+/// (a) acceptance window: teleport to every T, IFF1=1, IM1, NOP at 0x8000
+fn int_window(ctx: &Ctx, m128: bool) {
+    let sp = spec(m128);
+    let frame = sp.frame as usize;
+    let chunks = 64;
+    par_for_with(
+        chunks,
+        1,
+        || rig::emu_stepping(&opts(m128)),
+        |e, c| {
+            rig::poke(e, 0x8000, &[0x00, 0x00]);
+            for t in (c * frame / chunks)..((c + 1) * frame / chunks) {
+                for halted in [false, true] {
+                    let mut r = RegsView::default();
+                    r.pc = 0x8000;
+                    r.sp = 0x9000;
+                    r.iff1 = true;
+                    r.iff2 = true;
+                    r.im = 1;
+                    r.halted = halted;
+                    if halted {
+                        rig::poke(e, 0x8000, &[0x76]);
+                    } else {
+                        rig::poke(e, 0x8000, &[0x00]);
+                    }
+                    e.verif_set_frame_clocks(t);
+                    rig::set_regs(e.verif_cpu(), &r);
+                    rig::step(e);
+                    let v = rig::regs_view(e.verif_cpu());
+                    let accepted = !v.iff1;
+                    let expect = t < 32;
+                    ctx.add_eval(1);
+                    if accepted != expect {
+                        ctx.violation(
+                            &format!("C05:int-window:{}:{}", if m128 { "128k" } else { "48k" }, if accepted { "accepted-outside-32T" } else { "missed-inside-32T" }),
+                            &format!("{} machine: interrupt {} at an instruction boundary at T={} of the frame (halted={})", if m128 { "128K" } else { "48K" }, if accepted { "accepted" } else { "not accepted" }, t, halted),
+                            json!({"kind":"int-window","m128":m128,"t":t,"halted":halted}),
+                        );
+                    }
+                    if accepted {
+                        // pushed address: 0x8000 running, 0x8001 from HALT
+                        let lo = e.peek(0x8FFE) as u16 | (e.peek(0x8FFF) as u16) << 8;
+                        let want = if halted { 0x8001 } else { 0x8000 };
+                        if lo != want {
+                            ctx.violation(
+                                "C05:int-window:pushed-address",
+                                &format!("interrupt at T={} pushed {:04x}, expected {:04x} (halted={})", t, lo, want, halted),
+                                json!({"kind":"int-window","m128":m128,"t":t,"halted":halted}),
+                            );
+                        }
+                    }
+                }
+            }
+        },
+    );
+    ctx.outcome(m128 as u64);
+    ctx.outcome(2 + m128 as u64);
+}
+
+// ---------------------------------------------------------------- (b) programs
+
+#[derive(Clone, Debug)]
+pub enum Elem {
+    Halt,
+    Nops(u8),
+    Ldir,
+    Indexed,
+    Ei,
+    Di,
+    OutBorder,
+}
+
+fn elem_code(e: &Elem, contended_data: bool) -> Vec<u8> {
+    let dh = if contended_data { 0x60 } else { 0xA0 };
+    match e {
+        Elem::Halt => vec![0x76],
+        Elem::Nops(n) => vec![0x00; *n as usize],
+        // LD HL,src; LD DE,dst; LD BC,40; LDIR
+        Elem::Ldir => vec![0x21, 0x00, dh, 0x11, 0x80, dh, 0x01, 40, 0x00, 0xED, 0xB0],
+        // LD IX,dh00 ; INC (IX+5)  (23 T)
+        Elem::Indexed => vec![0xDD, 0x21, 0x00, dh, 0xDD, 0x34, 0x05],
+        Elem::Ei => vec![0xFB],
+        Elem::Di => vec![0xF3],
+        // OUT (FE),A : contended I/O every pass
+        Elem::OutBorder => vec![0xD3, 0xFE],
+    }
+}
+
+#[derive(Clone, Debug)]
+pub struct Program {
+    pub body: Vec<Elem>,
+    pub code_contended: bool,
+    pub data_contended: bool,
+    /// handler busy-loop count (0 = short handler < 32 T is not used; durations ~ 40, 100, 5000 T)
+    pub handler_loops: u8,
+    pub im2: bool,
+    pub start_ei: bool,
+}
+
+const HANDLER: u16 = 0x9000;
+const COUNTER: u16 = 0x9100;
+
+fn install(e: &mut Emu, p: &Program) -> u16 {
+    let base: u16 = if p.code_contended { 0x6800 } else { 0x8000 };
+    let mut code: Vec<u8> = Vec::new();
+    for el in p.body.iter() {
+        code.extend(elem_code(el, p.data_contended));
+    }
+    // JP base
+    code.extend([0xC3, base as u8, (base >> 8) as u8]);
+    rig::poke(e, base, &code);
+    // handler: PUSH HL; LD HL,COUNTER; INC (HL); POP HL; PUSH BC; LD B,n; DJNZ $; POP BC; EI; RET
+    let h: Vec<u8> = vec![
+        0xE5, 0x21, COUNTER as u8, (COUNTER >> 8) as u8, 0x34, 0xE1, 0xC5, 0x06, p.handler_loops.max(1), 0x10, 0xFE, 0xC1, 0xFB, 0xC9,
+    ];
+    rig::poke(e, HANDLER, &h);
+    rig::poke(e, COUNTER, &[0]);
+    // IM 2 vector: I = 0xFE, bus byte FF -> table at FEFF/FF00
+    rig::poke(e, 0xFEFF, &[HANDLER as u8, (HANDLER >> 8) as u8]);
+    base
+}
+
+fn ref_from(v: &RegsView) -> RefZ80 {
+    let mut s = RefZ80::new();
+    s.pc = v.pc;
+    s.sp = v.sp;
+    s.i = v.i;
+    s.r = v.r;
+    s.im = v.im;
+    s.iff1 = v.iff1;
+    s.iff2 = v.iff2;
+    s
+}
+
+/// Run one program for `frames` frames on both sides, comparing after every implementation step.
+pub fn run_program(ctx: &Ctx, m128: bool, p: &Program, frames: u64, verbose: bool) -> u64 {
+    let sp = spec(m128);
+    let mut e = rig::emu_stepping(&opts(m128));
+    let base = install(&mut e, p);
+    let mut r = RegsView::default();
+    r.pc = base;
+    r.sp = 0xBFF0;
+    r.i = 0xFE;
+    r.im = if p.im2 { 2 } else { 1 };
+    r.iff1 = p.start_ei;
+    r.iff2 = p.start_ei;
+    rig::set_regs(e.verif_cpu(), &r);
+    // reference machine with an owned copy of the 64K image
+    let img: Vec<u8> = (0..=0xFFFFu16).map(|a| e.peek(a)).collect();
+    let dummy_read = |_a: u16| 0u8;
+    let io = |_p: u16, _t: u64| 0xFFu8;
+    let t_start = rig::abs_t(&e, m128);
+    let mut bus = RefMachine::new(sp, Contended::new(m128, 0), t_start, &dummy_read, &io);
+    bus.mem64 = Some(img);
+    let mut rc = ref_from(&r);
+    let pj = json!({"kind":"program","m128":m128,"body":format!("{:?}", p.body),"code_contended":p.code_contended,"data_contended":p.data_contended,"handler_loops":p.handler_loops,"im2":p.im2,"start_ei":p.start_ei,"frames":frames});
+    let mut steps = 0u64;
+    let mut ref_ints = 0u64;
+    let mut last_int_frame: Option<u64> = None;
+    let mut once_per_frame_broken = false;
+    let end_t = t_start + frames * sp.frame;
+    while rig::abs_t(&e, m128) < end_t {
+        // implementation: one emulate()
+        rig::step(&mut e);
+        // reference: aligned macro-step
+        loop {
+            match rc.step(&mut bus) {
+                StepKind::IntAccepted => {
+                    ref_ints += 1;
+                    let f = bus.t / sp.frame;
+                    if last_int_frame == Some(f) {
+                        once_per_frame_broken = true;
+                    }
+                    last_int_frame = Some(f);
+                }
+                StepKind::NmiAccepted | StepKind::Prefix => {}
+                StepKind::Instruction => {
+                    if rc.pending_prefix == 0 {
+                        break;
+                    }
+                }
+            }
+            if e.verif_cpu().verif_active_prefix() != 0 && rc.pending_prefix != 0 {
+                break;
+            }
+        }
+        steps += 1;
+        let it = rig::abs_t(&e, m128);
+        let v = rig::regs_view(e.verif_cpu());
+        if verbose && steps < 40 {
+            println!("  step {}: impl T={} pc={:04x} sp={:04x} | ref T={} pc={:04x} sp={:04x}", steps, it, v.pc, v.sp, bus.t, rc.pc, rc.sp);
+        }
+        if it != bus.t || v.pc != rc.pc || v.sp != rc.sp {
+            let frame_no = bus.t / sp.frame;
+            let what = if it != bus.t {
+                if v.pc == rc.pc {
+                    "time"
+                } else {
+                    "interrupt-or-control-flow"
+                }
+            } else {
+                "control-flow"
+            };
+            ctx.violation(
+                &format!("C05:program:{}:{}", if m128 { "128k" } else { "48k" }, what),
+                &format!(
+                    "{} program {:?} (code contended {}, data contended {}, handler loops {}, im2 {}, ei {}): after {} instructions (frame {}) implementation is at T={} pc={:04x} sp={:04x}, reference at T={} pc={:04x} sp={:04x}",
+                    if m128 { "128K" } else { "48K" }, p.body, p.code_contended, p.data_contended, p.handler_loops, p.im2, p.start_ei, steps, frame_no, it, v.pc, v.sp, bus.t, rc.pc, rc.sp
+                ),
+                pj.clone(),
+            );
+            return steps;
+        }
+    }
+    // interrupt counter in RAM must equal the reference's count
+    let cnt_impl = e.peek(COUNTER) as u64;
+    let cnt_ref = bus.mem64.as_ref().unwrap()[COUNTER as usize] as u64;
+    if p.im2 && cnt_impl != cnt_ref {
+        ctx.violation("C05:program:interrupt-count", &format!("interrupt counter {} vs reference {}", cnt_impl, cnt_ref), pj.clone());
+    }
+    // spec-level statement on the reference itself: never twice in one frame (handler > 32 T)
+    if once_per_frame_broken {
+        ctx.violation("C05:program:interrupted-twice-in-a-frame", &format!("program {:?}: two acceptances within one frame", p.body), pj.clone());
+    }
+    ctx.outcome(crate::vcore::fnv(format!("{:?}{}{}{}", p.body, ref_ints, steps, m128).as_bytes()));
+    steps
+}
+
+fn elems() -> Vec<Elem> {
+    let mut v = vec![Elem::Halt, Elem::Ldir, Elem::Indexed, Elem::Ei, Elem::Di, Elem::OutBorder];
+    for n in [1u8, 2, 3, 5, 7, 11, 13, 17, 19, 23, 24] {
+        v.push(Elem::Nops(n));
+    }
+    v
+}
+
+pub fn programs(quick: bool) -> Vec<Program> {
+    let es = elems();
+    let mut bodies: Vec<Vec<Elem>> = Vec::new();
+    for a in es.iter() {
+        bodies.push(vec![a.clone()]);
+        for b in es.iter() {
+            bodies.push(vec![a.clone(), b.clone()]);
+            if !quick {
+                for c in es.iter() {
+                    bodies.push(vec![a.clone(), b.clone(), c.clone()]);
+                }
+            }
+        }
+    }
+    let mut out = Vec::new();
+    for (k, body) in bodies.into_iter().enumerate() {
+        // configurations rotate deterministically over the bodies in quick, full product in thorough
+        let cfgs: Vec<(bool, bool, u8, bool, bool)> = if quick {
+            let loops = [1u8, 6, 255][k % 3];
+            vec![(k % 2 == 0, k % 4 < 2, loops, true, true), (k % 2 == 1, k % 4 >= 2, [6u8, 255, 1][k % 3], k % 5 != 0, k % 7 != 0)]
+        } else {
+            let mut v = Vec::new();
+            for cc in [false, true] {
+                for loops in [1u8, 6, 255] {
+                    v.push((cc, !cc, loops, true, true));
+                    v.push((cc, cc, loops, k % 2 == 0, true));
+                }
+            }
+            v.push((false, true, 6, true, false));
+            v
+        };
+        for (cc, dc, loops, im2, ei) in cfgs {
+            out.push(Program { body: body.clone(), code_contended: cc, data_contended: dc, handler_loops: loops, im2, start_ei: ei });
+        }
+    }
+    out
+}
+
+/// (c) emulate_frames(FrameCount(n)) returns after exactly n frame wraps
+fn frame_count_calls(ctx: &Ctx) {
+    for m128 in [false, true] {
+        for n in 1..=4usize {
+            let mut o = opts(m128);
+            o.mode = rustzx_core::EmulationMode::FrameCount(n);
+            let mut e = rig::emu(&o);
+            let mut total = 0u64;
+            for call in 0..5 {
+                let before = e.verif_total_frames();
+                let _ = e.emulate_frames(Duration::from_secs(1000));
+                let after = e.verif_total_frames();
+                total += after - before;
+                ctx.add_eval(1);
+                if after - before != n as u64 {
+                    ctx.violation(
+                        "C05:frame-count-call",
+                        &format!("emulate_frames with FrameCount({}) emulated {} frames (call {})", n, after - before, call),
+                        json!({"kind":"frame-count","m128":m128,"n":n}),
+                    );
+                }
+                let fc = e.verif_frame_clocks() as u64;
+                if fc >= 64 {
+                    ctx.violation(
+                        "C05:frame-count-call:overrun",
+                        &format!("after emulate_frames the in-frame offset is {} T (should be the overrun of one instruction)", fc),
+                        json!({"kind":"frame-count","m128":m128,"n":n}),
+                    );
+                }
+            }
+            ctx.outcome(crate::vcore::fnv(&[m128 as u8, n as u8, total as u8]));
+        }
+    }
+}
+
+pub fn run(tier: Tier, seed: u64, replay: Option<String>) -> i32 {
+    let ctx = Ctx::new("C05", tier, seed, "model_checking");
+    let quick = !tier.is_thorough();
+    if let Some(path) = replay {
+        let v: serde_json::Value = serde_json::from_slice(&rig::read_file(&path)).expect("replay json");
+        let c = &v["case"];
+        if c["kind"] == "program" {
+            let progs = programs(false);
+            let want = c["body"].as_str().unwrap_or("").to_string();
+            for p in progs.iter() {
+                if format!("{:?}", p.body) == want
+                    && p.code_contended == c["code_contended"].as_bool().unwrap_or(false)
+                    && p.data_contended == c["data_contended"].as_bool().unwrap_or(false)
+                    && p.handler_loops as u64 == c["handler_loops"].as_u64().unwrap_or(0)
+                    && p.im2 == c["im2"].as_bool().unwrap_or(true)
+                    && p.start_ei == c["start_ei"].as_bool().unwrap_or(true)
+                {
+                    run_program(&ctx, c["m128"].as_bool().unwrap_or(false), p, c["frames"].as_u64().unwrap_or(8), true);
+                    break;
+                }
+            }
+        } else if c["kind"] == "int-window" {
+            int_window(&ctx, c["m128"].as_bool().unwrap_or(false));
+        } else {
+            frame_count_calls(&ctx);
+        }
+        let n = ctx.violation_classes();
+        println!("replay: {} violation class(es) reproduced", n);
+        return (n > 0) as i32;
+    }
+    if let Err(e) = crate::oracle::require_valid() {
+        eprintln!("MACHINERY: reference model not validated: {}", e);
+        return 2;
+    }
+    int_window(&ctx, false);
+    int_window(&ctx, true);
+    let progs = programs(quick);
+    let frames = if quick { 6 } else { 40 };
+    let jobs: Vec<(bool, usize)> = (0..progs.len()).flat_map(|i| [(false, i), (true, i)]).collect();
+    par_for(jobs.len(), 1, |j| {
+        let (m128, i) = jobs[j];
+        let n = run_program(&ctx, m128, &progs[i], frames, false);
+        ctx.add_transitions(n);
+        ctx.add_traces(1);
+        ctx.add_states(n);
+    });
+    frame_count_calls(&ctx);
+    ctx.note("programs", json!(progs.len() * 2));
+    ctx.note("frames_per_program", json!(frames));
+    ctx.sample(json!({"program": format!("{:?}", progs[progs.len() / 2])}));
+    ctx.finish(
+        "(a) every T of the frame x both machines x running/halted: an enabled interrupt is accepted at that boundary iff T < 32, pushed address checked; (b) all loop bodies of <=2 (quick) / <=3 (thorough) elements over {HALT, LDIR, 23-T indexed op, EI, DI, OUT (FE), NOP sleds of 11 lengths}, code and data in contended or uncontended RAM, IM 2 handler of ~40/100/3400 T that counts interrupts, run for whole frames on the real Emulator (clock never placed) and on RefZ80+RefULA, comparing (absolute T, PC, SP) after every instruction, interrupt counter at the end; (c) emulate_frames(FrameCount(n)) emulates exactly n frames, n=1..4. states = instruction boundaries compared",
+        true,
+        &["absolute T of the implementation = total_frames (hook counter incremented in new_frame) x frame length + frame clock", "RefULA from the property text, RefZ80 validated"],
+    )
 }
